@@ -479,3 +479,101 @@ func ruleR075(c *Ctx) {
 		c.Undecided("value#rune-decoding", token.NoPos, "no decoded rune that is written into a result found")
 	}
 }
+
+// ---------------------------------------------------------------------------
+// R07.6 no address of an element of a growing slice is kept
+
+// ruleR076: `&s[i]` stored in a map, a field, another slice or a variable that
+// outlives the loop iteration, while the same function appends to s: when the
+// append reallocates, the stored pointers refer to the old array and later
+// updates through them are lost (groups lose members once there are more
+// groups than the initial capacity).
+func ruleR076(c *Ctx) {
+	n := 0
+	forEachFuncBody(c.RepoPkgs, func(pkg *packages.Package, fn ast.Node, body *ast.BlockStmt) {
+		info := pkg.TypesInfo
+		// slices this function appends to: s = append(s, ...)
+		grows := map[types.Object]bool{}
+		ast.Inspect(body, func(x ast.Node) bool {
+			as, ok := x.(*ast.AssignStmt)
+			if !ok || len(as.Lhs) != 1 || len(as.Rhs) != 1 {
+				return true
+			}
+			call, ok := ast.Unparen(as.Rhs[0]).(*ast.CallExpr)
+			if !ok || len(call.Args) < 2 {
+				return true
+			}
+			if id, ok := ast.Unparen(call.Fun).(*ast.Ident); !ok || id.Name != "append" {
+				return true
+			}
+			l, ok1 := ast.Unparen(as.Lhs[0]).(*ast.Ident)
+			a0, ok2 := ast.Unparen(call.Args[0]).(*ast.Ident)
+			if ok1 && ok2 && info.ObjectOf(l) == info.ObjectOf(a0) {
+				grows[info.ObjectOf(l)] = true
+			}
+			return true
+		})
+		if len(grows) == 0 {
+			return
+		}
+		inspectNoLit(body, func(x ast.Node) bool {
+			u, ok := x.(*ast.UnaryExpr)
+			if !ok || u.Op != token.AND {
+				return true
+			}
+			ix, ok := ast.Unparen(u.X).(*ast.IndexExpr)
+			if !ok {
+				return true
+			}
+			sid, ok := ast.Unparen(ix.X).(*ast.Ident)
+			if !ok || !grows[info.ObjectOf(sid)] {
+				return true
+			}
+			if _, isSlice := info.TypeOf(ix.X).Underlying().(*types.Slice); !isSlice {
+				return true
+			}
+			n++
+			key := fmt.Sprintf("%s#address-of-element[%d]:%s", c.FuncName(fn)+litSuffix(c, fn), n, sid.Name)
+			// is the address kept? stored into a map/slice element or a field, appended, returned, or assigned to a variable
+			kept := ""
+			switch p := c.Parent(u).(type) {
+			case *ast.AssignStmt:
+				for i, r := range p.Rhs {
+					if ast.Unparen(r) != ast.Expr(u) || i >= len(p.Lhs) {
+						continue
+					}
+					switch l := ast.Unparen(p.Lhs[i]).(type) {
+					case *ast.IndexExpr:
+						kept = "stored in " + nodeStr(c.Fset, l.X)
+					case *ast.SelectorExpr:
+						kept = "stored in the field " + nodeStr(c.Fset, l)
+					case *ast.Ident:
+						// a variable declared outside the innermost loop survives the iteration
+						if obj := info.ObjectOf(l); obj != nil {
+							if loop := enclosingLoop(c, p, fn); loop == nil || obj.Pos() < loop.Pos() {
+								kept = "kept in the variable " + l.Name
+							}
+						}
+					}
+				}
+			case *ast.CallExpr:
+				if id, ok := ast.Unparen(p.Fun).(*ast.Ident); ok && id.Name == "append" {
+					kept = "appended to " + nodeStr(c.Fset, p.Args[0])
+				}
+			case *ast.ReturnStmt:
+				kept = "returned"
+			case *ast.KeyValueExpr, *ast.CompositeLit:
+				kept = "stored in a composite value"
+			}
+			if kept == "" {
+				c.OK(key, u.Pos(), "the address of the element is used at once and not kept")
+			} else {
+				c.Violation(key, u.Pos(), "the address of an element of %s is %s while this function appends to %s: when the append reallocates the array, the pointers kept so far refer to the old copy and updates through them are lost", sid.Name, kept, sid.Name)
+			}
+			return true
+		})
+	})
+	if n == 0 {
+		c.OK("repo#addresses-of-slice-elements", token.NoPos, "no address of an element of a slice that the same function appends to is taken")
+	}
+}
